@@ -146,7 +146,7 @@ pub fn specs() -> Vec<Spec> {
 
 pub fn run(ctx: &Ctx) -> CheckOutput {
     let quick = ctx.tier == Tier::Quick;
-    let depth = if quick { 6 } else { 8 };
+    let depth = if quick { 6 } else { 9 };
     let mut jobs: Vec<Job> = vec![];
     for spec in specs() {
         jobs.push(Box::new(move || {
